@@ -451,3 +451,531 @@ Proof.
     destruct (nlen v =? 0); [apply delete_eq | apply put_eq].
   - unfold write_batch. cbn [fold_left]. apply IH; assumption.
 Qed.
+
+(* ---------------------------------------------------------------- ExecuteBatch *)
+
+Lemma sort_nil : forall sort, sort_ok sort -> sort [] = [].
+Proof.
+  intros sort H. destruct (H []) as [P _]. apply Permutation_sym in P. apply Permutation_nil in P. exact P.
+Qed.
+
+Lemma kvs_ok_perm : forall l l', Permutation l l' -> kvs_ok l -> kvs_ok l'.
+Proof.
+  intros l l' P H. unfold kvs_ok in *. rewrite Forall_forall in *. intros x Hx.
+  apply H. eapply Permutation_in; [apply Permutation_sym; exact P | exact Hx].
+Qed.
+
+Lemma vals_of_notin : forall k l, ~ In k (keysof l) -> vals_of k l = [].
+Proof.
+  intros k l N. apply none_with_key. intros x Hx E. apply N. unfold keysof. rewrite <- E. apply in_map. assumption.
+Qed.
+
+Lemma nlen_encode_cons : forall v l, (nlen (encode (v :: l)) =? 0) = false.
+Proof.
+  intros. apply N.eqb_neq. cbn [encode]. rewrite nlen_app, nlen_chunk. lia.
+Qed.
+
+Definition batch_post (sort : list kv -> list kv) (s : store) (adds dels : list kv) (r : result store) : Prop :=
+  match r with
+  | Ok s' => store_ok s' /\ forall k, batch_key (abs s k) k (sort adds) (sort dels) = Some (abs s' k)
+  | Err e => e = E_NXVAL /\ exists k, batch_key (abs s k) k (sort adds) (sort dels) = None
+  end.
+
+Lemma batch_body : forall sort s adds dels, sort_ok sort -> store_ok s -> kvs_ok adds ->
+  batch_post sort s adds dels
+    (match affected_keys (sort adds) (sort dels) with
+     | None => Err E_FUEL
+     | Some keys =>
+         match integrate (map (fun k => (k, get_or_nil s k)) keys) (sort adds) (sort dels) with
+         | Err e => Err e
+         | Ok vals => Ok (write_batch s vals)
+         end
+     end).
+Proof.
+  intros sort s adds dels HS Hs Ha.
+  set (A := sort adds). set (D := sort dels).
+  assert (SA : SS A) by (apply sort_ok_SS; assumption).
+  assert (SD : SS D) by (apply sort_ok_SS; assumption).
+  assert (WA : kvs_ok A) by (eapply kvs_ok_perm; [apply Permutation_sym; apply (HS adds) | assumption]).
+  destruct (affected_keys_spec A D SA SD) as [keys [R [S I]]]. rewrite R.
+  assert (M : map (fun k => (k, get_or_nil s k)) keys = map (fun k => (k, encode (abs s k))) keys).
+  { apply map_ext. intro k. rewrite (proj1 (store_ok_get s k Hs)). reflexivity. }
+  rewrite M. unfold integrate.
+  rewrite (integrate_loop_spec keys A D (abs s)); try assumption.
+  2:{ intros x Hx. apply I. apply in_or_app. left. unfold keysof. apply in_map. assumption. }
+  2:{ intros x Hx. apply I. apply in_or_app. right. unfold keysof. apply in_map. assumption. }
+  2:{ intro k. apply (store_ok_get s k Hs). }
+  destruct (spec_vals (abs s) A D keys) as [out|] eqn:SV.
+  - destruct (spec_vals_some _ _ _ _ _ SV) as [K1 K2].
+    assert (K3 : map fst (enc_out out) = keys).
+    { unfold enc_out. rewrite map_map. simpl. exact K1. }
+    assert (ND : NoDup (map fst (enc_out out))) by (rewrite K3; apply sorted_NoDup; assumption).
+    (* what the new store holds for an affected key *)
+    assert (IN : forall k, In k keys -> exists l, batch_key (abs s k) k A D = Some l /\ Forall okv l /\
+                  write_batch s (enc_out out) k = if nlen (encode l) =? 0 then None else Some (encode l)).
+    { intros k Hk. rewrite <- K1 in Hk. apply in_map_iff in Hk. destruct Hk as [[k' l] [E Hin]]. simpl in E. subst k'.
+      exists l. split; [apply K2; assumption|]. split.
+      - eapply remove_firsts_Forall; [|apply (K2 k l Hin)].
+        apply Forall_app. split; [apply (store_ok_get s k Hs) | apply vals_of_okv; assumption].
+      - apply write_batch_in; [assumption|]. unfold enc_out. apply in_map_iff. exists (k, l). split; [reflexivity | assumption]. }
+    assert (OUT : forall k, ~ In k keys -> write_batch s (enc_out out) k = s k).
+    { intros k Hk. apply write_batch_notin. rewrite K3. assumption. }
+    cbn [batch_post]. fold A D. split.
+    + (* the invariant *)
+      intros k d Hd. destruct (in_dec (list_eq_dec N.eq_dec) k keys) as [Hk|Hk].
+      * destruct (IN k Hk) as [l [_ [W E]]]. rewrite E in Hd.
+        destruct l as [|v l]; [simpl in Hd; discriminate|].
+        rewrite nlen_encode_cons in Hd. inversion Hd; subst.
+        exists (v :: l). split; [discriminate|]. split; [assumption | reflexivity].
+      * rewrite (OUT k Hk) in Hd. apply (Hs k d Hd).
+    + intro k. destruct (in_dec (list_eq_dec N.eq_dec) k keys) as [Hk|Hk].
+      * destruct (IN k Hk) as [l [B [W E]]]. rewrite B. f_equal.
+        destruct l as [|v l].
+        -- simpl in E. symmetry. apply abs_none. assumption.
+        -- rewrite nlen_encode_cons in E. symmetry. apply abs_some; assumption.
+      * rewrite (abs_ext _ s k (OUT k Hk)). unfold batch_key.
+        assert (NA : ~ In k (keysof A)) by (intro X; apply Hk; apply I; apply in_or_app; left; assumption).
+        assert (NDl : ~ In k (keysof D)) by (intro X; apply Hk; apply I; apply in_or_app; right; assumption).
+        rewrite (vals_of_notin k A NA), (vals_of_notin k D NDl). simpl. rewrite app_nil_r. reflexivity.
+  - cbn [batch_post]. fold A D. split; [reflexivity|]. apply (spec_vals_none _ _ _ _ SV).
+Qed.
+
+(* ExecuteBatch, key by key: the old values, then the batch's additions to the key in the
+   order the sort left them, then its deletions; or an error and no write at all *)
+Lemma execute_batch_perkey : forall sort s adds dels, sort_ok sort -> store_ok s -> kvs_ok adds ->
+  match execute_batch sort s adds dels with
+  | Ok s' => store_ok s' /\ forall k, remove_firsts (vals_of k (sort dels)) (abs s k ++ vals_of k (sort adds)) = Some (abs s' k)
+  | Err e => e = E_NXVAL /\ exists k, remove_firsts (vals_of k (sort dels)) (abs s k ++ vals_of k (sort adds)) = None
+  end.
+Proof.
+  intros sort s adds dels HS Hs Ha.
+  change (batch_post sort s adds dels (execute_batch sort s adds dels)).
+  unfold execute_batch. destruct adds as [|a0 adds']; [destruct dels as [|d0 dels']|].
+  - cbn [batch_post]. split; [assumption|]. intro k. rewrite (sort_nil sort HS). unfold batch_key. simpl.
+    rewrite app_nil_r. reflexivity.
+  - apply batch_body; assumption.
+  - apply batch_body; assumption.
+Qed.
+
+(* for arbitrary stored bytes: the internal error of integrate, the model's fuel error and the
+   Panic outcome are unreachable; ExecuteBatch fails only with a deletion error *)
+Lemma consume_dels_err : forall d key val e, consume_dels d key val = Err e -> e = E_UEOF \/ e = E_NXVAL.
+Proof.
+  induction d as [|[k v] d' IH]; intros key val e H; simpl in H; [discriminate|].
+  destruct (bytes_eqb k key); [|discriminate].
+  pose proof (del_value_total val v) as T. destruct (del_value val v) as [val'|e'].
+  - eapply IH; eassumption.
+  - inversion H; subst. assumption.
+Qed.
+
+Lemma integrate_loop_err : forall kvs A D e, integrate_loop kvs A D = Err e -> e = E_UEOF \/ e = E_NXVAL.
+Proof.
+  induction kvs as [|[k val] r IH]; intros A D e H; simpl in H; [discriminate|].
+  destruct (consume_adds A k val) as [a1 val1].
+  destruct (consume_dels D k val1) as [[d1 val2]|e'] eqn:E.
+  - destruct (integrate_loop r a1 d1) as [[[out a2] d2]|e''] eqn:E2; [discriminate|].
+    inversion H; subst. eapply IH; eassumption.
+  - inversion H; subst. eapply consume_dels_err; eassumption.
+Qed.
+
+Lemma execute_batch_errors : forall sort s adds dels e, sort_ok sort ->
+  execute_batch sort s adds dels = Err e -> e = E_UEOF \/ e = E_NXVAL.
+Proof.
+  intros sort s adds dels e HS H.
+  assert (B : match affected_keys (sort adds) (sort dels) with
+              | None => Err E_FUEL
+              | Some keys =>
+                  match integrate (map (fun k => (k, get_or_nil s k)) keys) (sort adds) (sort dels) with
+                  | Err e => Err e
+                  | Ok vals => Ok (write_batch s vals)
+                  end
+              end = Err e).
+  { unfold execute_batch in H. destruct adds; [destruct dels; [discriminate|]|]; exact H. }
+  clear H.
+  destruct (affected_keys_spec (sort adds) (sort dels) (sort_ok_SS sort adds HS) (sort_ok_SS sort dels HS)) as [keys [R [S I]]].
+  rewrite R in B. unfold integrate in B.
+  set (kvs := map (fun k => (k, get_or_nil s k)) keys) in *.
+  assert (KM : map fst kvs = keys).
+  { unfold kvs. rewrite map_map. simpl. apply map_id. }
+  destruct (integrate_loop kvs (sort adds) (sort dels)) as [[[out a2] d2]|e'] eqn:E.
+  - destruct (integrate_loop_consumes_all kvs (sort adds) (sort dels) out a2 d2) as [X Y]; try assumption.
+    + rewrite KM. assumption.
+    + apply sort_ok_SS; assumption.
+    + apply sort_ok_SS; assumption.
+    + intros x Hx. rewrite KM. apply I. apply in_or_app. left. unfold keysof. apply in_map. assumption.
+    + intros x Hx. rewrite KM. apply I. apply in_or_app. right. unfold keysof. apply in_map. assumption.
+    + subst a2 d2. discriminate.
+  - assert (X : e' = e) by congruence. subst e'. eapply integrate_loop_err; eassumption.
+Qed.
+
+(* ---------------------------------------------------------------- Add, Del, reads *)
+
+Lemma add_refines : forall s k v, store_ok s -> okv v ->
+  store_ok (add s k v) /\ smap_eq (abs (add s k v)) (m_add (abs s) k v).
+Proof.
+  intros s k v Hs Hv. destruct (store_ok_get s k Hs) as [G [W _]].
+  assert (E : add s k v = put s k (encode (abs s k ++ [v]))).
+  { unfold add. rewrite append_values_encode, G, <- encode_app. reflexivity. }
+  assert (W' : Forall okv (abs s k ++ [v])) by (apply Forall_app; split; [assumption | constructor; [assumption | constructor]]).
+  rewrite E. split.
+  - intros k' d Hd. destruct (list_eq_dec N.eq_dec k' k) as [X|X].
+    + subst. rewrite put_eq in Hd. inversion Hd; subst. exists (abs s k ++ [v]).
+      split; [intro Z; apply app_eq_nil in Z; destruct Z; discriminate|]. split; [assumption | reflexivity].
+    + rewrite put_neq in Hd by assumption. apply (Hs k' d Hd).
+  - intro k'. unfold m_add. destruct (list_eq_dec N.eq_dec k' k) as [X|X].
+    + subst. rewrite m_set_eq. apply abs_some; [assumption | apply put_eq].
+    + rewrite m_set_neq by assumption. apply abs_ext. apply put_neq. assumption.
+Qed.
+
+(* Del: fails exactly when the key (ErrNXKey) or the value (ErrNXVal) is absent, else removes one value;
+   the key disappears with its last value *)
+Lemma del_refines : forall s k v, store_ok s ->
+  match del s k v with
+  | Ok s' => store_ok s' /\ exists m', m_del (abs s) k v = Some m' /\ smap_eq (abs s') m'
+  | Err e => m_del (abs s) k v = None /\
+             ((e = E_NXKEY /\ abs s k = []) \/ (e = E_NXVAL /\ abs s k <> []))
+  end.
+Proof.
+  intros s k v Hs. unfold del, m_del. destruct (s k) as [d|] eqn:E.
+  - destruct (Hs k d E) as [vs [NE [W D]]]. subst d.
+    rewrite (abs_some s k vs W E). rewrite del_value_encode by assumption.
+    destruct (remove_first v vs) as [vs'|] eqn:R.
+    + assert (W' : Forall okv vs') by (eapply remove_first_Forall; eassumption).
+      destruct vs' as [|v' vs'].
+      * cbn [encode nlen length N.of_nat N.eqb]. split.
+        -- intros k' d Hd. destruct (list_eq_dec N.eq_dec k' k) as [X|X].
+           ++ subst. rewrite delete_eq in Hd. discriminate.
+           ++ rewrite delete_neq in Hd by assumption. apply (Hs k' d Hd).
+        -- eexists. split; [reflexivity|]. intro k'. destruct (list_eq_dec N.eq_dec k' k) as [X|X].
+           ++ subst. rewrite m_set_eq. apply abs_none. apply delete_eq.
+           ++ rewrite m_set_neq by assumption. apply abs_ext. apply delete_neq. assumption.
+      * rewrite nlen_encode_cons. split.
+        -- intros k' d Hd. destruct (list_eq_dec N.eq_dec k' k) as [X|X].
+           ++ subst. rewrite put_eq in Hd. inversion Hd; subst. exists (v' :: vs').
+              split; [discriminate|]. split; [assumption | reflexivity].
+           ++ rewrite put_neq in Hd by assumption. apply (Hs k' d Hd).
+        -- eexists. split; [reflexivity|]. intro k'. destruct (list_eq_dec N.eq_dec k' k) as [X|X].
+           ++ subst. rewrite m_set_eq. apply abs_some; [assumption | apply put_eq].
+           ++ rewrite m_set_neq by assumption. apply abs_ext. apply put_neq. assumption.
+    + split; [reflexivity|]. right. split; [reflexivity | assumption].
+  - rewrite (abs_none s k E). simpl. split; [reflexivity|]. left. split; reflexivity.
+Qed.
+
+(* reading a key yields precisely the values present *)
+Lemma reads_refine : forall s k, store_ok s ->
+  rdb_for_each s k = (m_for_each (abs s) k, 0) /\
+  rdb_find s k = match m_find (abs s) k with Some v => Ok v | None => Err E_EOF end.
+Proof.
+  intros s k Hs. destruct (store_ok_get s k Hs) as [G [W _]].
+  unfold rdb_find, m_find, m_for_each. rewrite G.
+  split.
+  - unfold abs at 1. unfold rdb_for_each. rewrite G.
+    rewrite for_each_data_encode by assumption. reflexivity.
+  - rewrite find_data_encode by assumption. destruct (abs s k); reflexivity.
+Qed.
+
+(* ---------------------------------------------------------------- one step, whole histories *)
+
+(* values that fit the length prefix *)
+Definition op_ok (o : op) : Prop :=
+  match o with
+  | OAdd _ v => okv v
+  | OBatch adds _ => kvs_ok adds
+  | _ => True
+  end.
+
+Definition failed (e : N) : bool := negb (e =? 0).
+
+(* ExecuteBatch against the specification: the batch's additions in the order the sort left
+   them, then its deletions (their order is irrelevant), in one step *)
+Lemma execute_batch_refines : forall sort s adds dels, sort_ok sort -> store_ok s -> kvs_ok adds ->
+  match execute_batch sort s adds dels with
+  | Ok s' => store_ok s' /\ exists m', m_batch (abs s) (sort adds) dels = Some m' /\ smap_eq (abs s') m'
+  | Err e => e = E_NXVAL /\ m_batch (abs s) (sort adds) dels = None
+  end.
+Proof.
+  intros sort s adds dels HS Hs Ha.
+  pose proof (execute_batch_perkey sort s adds dels HS Hs Ha) as P.
+  assert (PD : Permutation (sort dels) dels) by apply (HS dels).
+  destruct (execute_batch sort s adds dels) as [s'|e].
+  - destruct P as [Hs' K]. split; [assumption|].
+    destruct (m_batch_of_perkey (abs s) (sort adds) dels (abs s')) as [m' [E Q]].
+    + intro k. rewrite <- (batch_key_perm_dels _ _ _ _ _ PD). apply K.
+    + exists m'. split; [assumption|]. intro k. symmetry. apply Q.
+  - destruct P as [E [k K]]. split; [assumption|].
+    apply (m_batch_none_of_perkey _ _ _ k). rewrite <- (batch_key_perm_dels _ _ _ _ _ PD). exact K.
+Qed.
+
+Lemma step_refines : forall sort s o, sort_ok sort -> store_ok s -> op_ok o ->
+  let s' := fst (model_step sort s o) in
+  let e := snd (model_step sort s o) in
+  store_ok s' /\
+  smap_eq (abs s') (fst (spec_step sort (abs s) o)) /\
+  snd (spec_step sort (abs s) o) = failed e /\
+  (e = 0 \/ e = E_NXKEY \/ e = E_NXVAL) /\
+  (e <> 0 -> s' = s).
+Proof.
+  intros sort s o HS Hs Ho. destruct o as [k v|k v|adds dels|]; cbn [model_step spec_step].
+  - destruct (add_refines s k v Hs Ho) as [A B]. cbn [fst snd].
+    refine (conj A (conj B (conj eq_refl (conj (or_introl eq_refl) _)))). intro X; contradiction.
+  - pose proof (del_refines s k v Hs) as P. destruct (del s k v) as [s'|e]; cbn [fst snd].
+    + destruct P as [A [m' [B C]]]. rewrite B. cbn [fst snd].
+      refine (conj A (conj C (conj eq_refl (conj (or_introl eq_refl) _)))). intro X; contradiction.
+    + destruct P as [B C]. rewrite B. cbn [fst snd].
+      assert (Z : e = E_NXKEY \/ e = E_NXVAL) by (destruct C as [[C _]|[C _]]; [left | right]; assumption).
+      refine (conj Hs (conj (fun k' => eq_refl) (conj _ (conj (or_intror Z) (fun _ => eq_refl))))).
+      destruct Z; subst; reflexivity.
+  - pose proof (execute_batch_refines sort s adds dels HS Hs Ho) as P.
+    destruct (execute_batch sort s adds dels) as [s'|e]; cbn [fst snd].
+    + destruct P as [A [m' [B C]]]. rewrite B. cbn [fst snd].
+      refine (conj A (conj C (conj eq_refl (conj (or_introl eq_refl) _)))). intro X; contradiction.
+    + destruct P as [E B]. rewrite B. cbn [fst snd]. subst e.
+      refine (conj Hs (conj (fun k' => eq_refl) (conj eq_refl (conj (or_intror (or_intror eq_refl)) (fun _ => eq_refl))))).
+  - cbn [fst snd].
+    refine (conj Hs (conj (fun k' => eq_refl) (conj eq_refl (conj (or_introl eq_refl) (fun _ => eq_refl))))).
+Qed.
+
+Lemma model_run_cons : forall sort s o r,
+  model_run sort s (o :: r) =
+  (fst (model_run sort (fst (model_step sort s o)) r),
+   snd (model_step sort s o) :: snd (model_run sort (fst (model_step sort s o)) r)).
+Proof.
+  intros. cbn [model_run]. destruct (model_step sort s o) as [s1 e]. cbn [fst snd].
+  destruct (model_run sort s1 r). reflexivity.
+Qed.
+
+Lemma spec_run_cons : forall ord m o r,
+  spec_run ord m (o :: r) =
+  (fst (spec_run ord (fst (spec_step ord m o)) r),
+   snd (spec_step ord m o) :: snd (spec_run ord (fst (spec_step ord m o)) r)).
+Proof.
+  intros. cbn [spec_run]. destruct (spec_step ord m o) as [m1 e]. cbn [fst snd].
+  destruct (spec_run ord m1 r). reflexivity.
+Qed.
+
+(* unbounded histories: from related states, the store after any sequence of operations
+   abstracts to the specification's map, step by step with the same failures *)
+Theorem run_refines : forall sort, sort_ok sort -> forall ops s m,
+  store_ok s -> smap_eq (abs s) m -> Forall op_ok ops ->
+  store_ok (fst (model_run sort s ops)) /\
+  smap_eq (abs (fst (model_run sort s ops))) (fst (spec_run sort m ops)) /\
+  map failed (snd (model_run sort s ops)) = snd (spec_run sort m ops) /\
+  Forall (fun e => e = 0 \/ e = E_NXKEY \/ e = E_NXVAL) (snd (model_run sort s ops)).
+Proof.
+  intros sort HS. induction ops as [|o r IH]; intros s m Hs Hm Ho.
+  - cbn. repeat split; try assumption. constructor.
+  - inversion Ho as [|? ? Ho1 Hor]; subst.
+    rewrite model_run_cons, spec_run_cons. cbn [fst snd].
+    destruct (step_refines sort s o HS Hs Ho1) as [A [B [C [D _]]]].
+    destruct (spec_step_ext sort (abs s) m o Hm) as [X Y].
+    destruct (IH (fst (model_step sort s o)) (fst (spec_step sort m o)) A) as [I1 [I2 [I3 I4]]];
+      [intro k; rewrite B; apply Y | assumption |].
+    repeat split; try assumption.
+    + cbn [map]. rewrite I3. f_equal. rewrite <- X. symmetry. exact C.
+    + constructor; assumption.
+Qed.
+
+Lemma store_ok_empty : store_ok empty_store.
+Proof. intros k d H. discriminate. Qed.
+
+Lemma abs_empty : smap_eq (abs empty_store) m_empty.
+Proof. intro k. reflexivity. Qed.
+
+(* ---------------------------------------------------------------- the hypotheses are satisfiable *)
+
+Lemma kv_insert_perm : forall x l, Permutation (kv_insert x l) (x :: l).
+Proof.
+  induction l as [|y l IH]; simpl; [apply Permutation_refl|].
+  destruct (bltb (fst y) (fst x)); [|apply Permutation_refl].
+  eapply Permutation_trans; [apply perm_skip; exact IH | apply perm_swap].
+Qed.
+
+Lemma kv_insert_sorted : forall x l, SS l -> SS (kv_insert x l).
+Proof.
+  induction l as [|y l IH]; intro S; simpl; [constructor; constructor|].
+  inversion S; subst. destruct (bltb (fst y) (fst x)) eqn:C.
+  - constructor; [apply IH; assumption|].
+    assert (F : Forall (key_le y) (x :: l)) by (constructor; [apply klt_kle; exact C | assumption]).
+    rewrite Forall_forall in *. intros z Hz. apply F. eapply Permutation_in; [apply kv_insert_perm | exact Hz].
+  - constructor; [assumption|]. constructor; [exact C|].
+    eapply Forall_impl; [|eassumption]. intros z Hz. unfold key_le in *. eapply kle_trans; [exact C | exact Hz].
+Qed.
+
+(* insertion sort by key is an admissible sort *)
+Lemma sort_ok_isort : sort_ok kv_isort.
+Proof.
+  intro l. unfold kv_isort. induction l as [|x l [P S]]; simpl; [split; constructor|]. split.
+  - eapply Permutation_trans; [apply kv_insert_perm | apply perm_skip; assumption].
+  - apply StronglySorted_Sorted. apply kv_insert_sorted. apply Sorted_StronglySorted; [|assumption].
+    intros a b c. unfold key_le. apply kle_trans.
+Qed.
+
+(* a sort that reverses the order of equal keys is admissible too (sort.Slice is not stable) *)
+Fixpoint kv_insert_after (x : kv) (l : list kv) : list kv :=
+  match l with
+  | [] => [x]
+  | y :: l' => if bltb (fst x) (fst y) then x :: l else y :: kv_insert_after x l'
+  end.
+Definition kv_rsort (l : list kv) : list kv := fold_right kv_insert_after [] l.
+
+Lemma kv_insert_after_perm : forall x l, Permutation (kv_insert_after x l) (x :: l).
+Proof.
+  induction l as [|y l IH]; simpl; [apply Permutation_refl|].
+  destruct (bltb (fst x) (fst y)); [apply Permutation_refl|].
+  eapply Permutation_trans; [apply perm_skip; exact IH | apply perm_swap].
+Qed.
+
+Lemma kv_insert_after_sorted : forall x l, SS l -> SS (kv_insert_after x l).
+Proof.
+  induction l as [|y l IH]; intro S; simpl; [constructor; constructor|].
+  inversion S; subst. destruct (bltb (fst x) (fst y)) eqn:C.
+  - constructor; [assumption|]. constructor; [apply klt_kle; exact C|].
+    eapply Forall_impl; [|eassumption]. intros z Hz. unfold key_le in *. eapply kle_trans; [apply klt_kle; exact C | exact Hz].
+  - constructor; [apply IH; assumption|].
+    assert (F : Forall (key_le y) (x :: l)) by (constructor; [exact C | assumption]).
+    rewrite Forall_forall in *. intros z Hz. apply F. eapply Permutation_in; [apply kv_insert_after_perm | exact Hz].
+Qed.
+
+Lemma sort_ok_rsort : sort_ok kv_rsort.
+Proof.
+  intro l. unfold kv_rsort. induction l as [|x l [P S]]; simpl; [split; constructor|]. split.
+  - eapply Permutation_trans; [apply kv_insert_after_perm | apply perm_skip; assumption].
+  - apply StronglySorted_Sorted. apply kv_insert_after_sorted. apply Sorted_StronglySorted; [|assumption].
+    intros a b c. unfold key_le. apply kle_trans.
+Qed.
+
+(* the two sorts give different stores on the same batch: the order of two additions to one key *)
+Example sorts_differ :
+  let adds := [([97], [1]); ([97], [2])] in
+  (match execute_batch kv_isort empty_store adds [] with Ok s => abs s [97] | Err _ => [] end) = [[1]; [2]] /\
+  (match execute_batch kv_rsort empty_store adds [] with Ok s => abs s [97] | Err _ => [] end) = [[2]; [1]].
+Proof. vm_compute. split; reflexivity. Qed.
+
+(* a history with a failing batch in the middle: nothing of that batch is visible afterwards *)
+Definition example_ops : list op :=
+  [OAdd [97] [1]; OAdd [97] [];
+   OBatch [([98], [2]); ([97], [3])] [([97], [1]); ([98], [9])];   (* fails: 9 is not under b *)
+   OBatch [([98], [2]); ([97], [3]); ([98], [2])] [([97], [1]); ([98], [2])];
+   ODel [97] [7]; ODel [99] [7]; ODel [97] []].
+
+Example history_example :
+  snd (model_run kv_isort empty_store example_ops) = [0; 0; E_NXVAL; 0; E_NXVAL; E_NXKEY; 0] /\
+  map (abs (fst (model_run kv_isort empty_store example_ops))) [[97]; [98]; [99]] = [[[3]]; [[2]]; []].
+Proof. split; vm_compute; reflexivity. Qed.
+
+Example history_example_ok : Forall op_ok example_ops.
+Proof.
+  unfold example_ops. repeat (constructor; try exact I); unfold okv, nlen; simpl; lia.
+Qed.
+
+(* ---------------------------------------------------------------- summary statements *)
+
+(* ExecuteBatch against the batch in the order it was handed over: same failure; on success
+   every key keeps its surviving old values in place and holds, behind them, the same values
+   as "all additions, then all deletions" - in an order the sort decides *)
+Theorem batch_is_adds_then_dels : forall sort s adds dels, sort_ok sort -> store_ok s -> kvs_ok adds ->
+  Permutation (sort adds) adds /\
+  match execute_batch sort s adds dels with
+  | Ok s' =>
+      store_ok s' /\
+      (exists m1, m_batch (abs s) (sort adds) dels = Some m1 /\ smap_eq (abs s') m1) /\
+      (exists m', m_batch (abs s) adds dels = Some m' /\
+         forall k, upto_new (length (remove_avail (vals_of k dels) (abs s k))) (m' k) (abs s' k))
+  | Err e => e = E_NXVAL /\ m_batch (abs s) adds dels = None
+  end.
+Proof.
+  intros sort s adds dels HS Hs Ha. split; [apply (HS adds)|].
+  pose proof (execute_batch_refines sort s adds dels HS Hs Ha) as P.
+  pose proof (m_batch_perm_adds (abs s) adds (sort adds) dels (Permutation_sym (proj1 (HS adds)))) as Q.
+  destruct (execute_batch sort s adds dels) as [s'|e].
+  - destruct P as [Hs' [m1 [E C]]]. split; [assumption|]. split; [exists m1; split; assumption|].
+    rewrite E in Q. destruct (m_batch (abs s) adds dels) as [m'|]; [|contradiction].
+    exists m'. split; [reflexivity|]. intro k. rewrite (C k). apply Q.
+  - destruct P as [E B]. split; [assumption|]. rewrite B in Q.
+    destruct (m_batch (abs s) adds dels); [contradiction | reflexivity].
+Qed.
+
+(* with a sort that keeps the order of additions to one key (a stable sort) the result is exactly
+   "all additions, then all deletions" *)
+Theorem batch_exact_if_key_order_kept : forall sort s adds dels, sort_ok sort -> store_ok s -> kvs_ok adds ->
+  (forall k, vals_of k (sort adds) = vals_of k adds) ->
+  match execute_batch sort s adds dels with
+  | Ok s' => exists m', m_batch (abs s) adds dels = Some m' /\ smap_eq (abs s') m'
+  | Err e => m_batch (abs s) adds dels = None
+  end.
+Proof.
+  intros sort s adds dels HS Hs Ha K.
+  pose proof (execute_batch_refines sort s adds dels HS Hs Ha) as P.
+  pose proof (m_batch_same_key_order (abs s) adds (sort adds) dels K) as Q.
+  destruct (execute_batch sort s adds dels) as [s'|e].
+  - destruct P as [_ [m1 [E C]]]. rewrite E in Q. destruct (m_batch (abs s) adds dels) as [m'|]; [|contradiction].
+    exists m'. split; [reflexivity|]. intro k. rewrite (C k). symmetry. apply Q.
+  - destruct P as [_ B]. rewrite B in Q. destruct (m_batch (abs s) adds dels); [contradiction | reflexivity].
+Qed.
+
+(* but not for every admissible sort: two additions to one key may come out swapped *)
+Theorem batch_exact_order_refuted :
+  exists sort, sort_ok sort /\
+  exists adds s', execute_batch sort empty_store adds [] = Ok s' /\
+  exists m', m_batch (abs empty_store) adds [] = Some m' /\ abs s' [97] <> m' [97].
+Proof.
+  exists kv_rsort. split; [apply sort_ok_rsort|].
+  exists [([97], [1]); ([97], [2])]. eexists. split; [reflexivity|].
+  eexists. split; [reflexivity|]. vm_compute. discriminate.
+Qed.
+
+(* a batch that fails changes nothing, in the store and in the map; the failure does not depend on
+   the order of the additions *)
+Theorem failed_batch_noop : forall sort s adds dels, sort_ok sort -> store_ok s -> kvs_ok adds ->
+  snd (model_step sort s (OBatch adds dels)) <> 0 ->
+  fst (model_step sort s (OBatch adds dels)) = s /\
+  snd (model_step sort s (OBatch adds dels)) = E_NXVAL /\
+  m_batch (abs s) adds dels = None /\
+  fst (spec_step sort (abs s) (OBatch adds dels)) = abs s.
+Proof.
+  intros sort s adds dels HS Hs Ha F.
+  pose proof (batch_is_adds_then_dels sort s adds dels HS Hs Ha) as [_ P].
+  pose proof (execute_batch_refines sort s adds dels HS Hs Ha) as Q.
+  cbn [model_step spec_step] in *.
+  destruct (execute_batch sort s adds dels) as [s'|e]; cbn [fst snd] in *; [contradiction F; reflexivity|].
+  destruct P as [E B]. destruct Q as [_ B']. rewrite B'. cbn [fst]. repeat split; assumption.
+Qed.
+
+(* integrate consumes both pair lists: with sorted pair lists and the strictly sorted keys that
+   cover them, the loops leave nothing, whatever bytes are stored *)
+Theorem integrate_consumes_all : forall sort s adds dels, sort_ok sort ->
+  (forall e, execute_batch sort s adds dels = Err e -> e = E_UEOF \/ e = E_NXVAL) /\
+  (forall keys, affected_keys (sort adds) (sort dels) = Some keys ->
+     forall out a2 d2,
+       integrate_loop (map (fun k => (k, get_or_nil s k)) keys) (sort adds) (sort dels) = Ok (out, a2, d2) ->
+       a2 = [] /\ d2 = []) /\
+  affected_keys (sort adds) (sort dels) <> None.
+Proof.
+  intros sort s adds dels HS. split; [intros e H; eapply execute_batch_errors; eassumption|].
+  destruct (affected_keys_spec (sort adds) (sort dels) (sort_ok_SS sort adds HS) (sort_ok_SS sort dels HS)) as [keys [R [S I]]].
+  split; [|rewrite R; discriminate].
+  intros keys' R' out a2 d2 H. rewrite R in R'. inversion R'; subst keys'.
+  assert (KM : map fst (map (fun k => (k, get_or_nil s k)) keys) = keys) by (rewrite map_map; simpl; apply map_id).
+  eapply (integrate_loop_consumes_all _ (sort adds) (sort dels)); [| apply sort_ok_SS; assumption | apply sort_ok_SS; assumption | | | exact H].
+  - rewrite KM. assumption.
+  - intros x Hx. rewrite KM. apply I. apply in_or_app. left. unfold keysof. apply in_map. assumption.
+  - intros x Hx. rewrite KM. apply I. apply in_or_app. right. unfold keysof. apply in_map. assumption.
+Qed.
+
+(* the property over unbounded histories, from the empty store *)
+Theorem refines_map_of_lists : forall sort, sort_ok sort -> forall ops, Forall op_ok ops ->
+  let r := model_run sort empty_store ops in
+  let sp := spec_run sort m_empty ops in
+  store_ok (fst r) /\
+  smap_eq (abs (fst r)) (fst sp) /\
+  map failed (snd r) = snd sp /\
+  Forall (fun e => e = 0 \/ e = E_NXKEY \/ e = E_NXVAL) (snd r) /\
+  (forall k, rdb_for_each (fst r) k = (m_for_each (fst sp) k, 0) /\
+             rdb_find (fst r) k = match m_find (fst sp) k with Some v => Ok v | None => Err E_EOF end).
+Proof.
+  intros sort HS ops Ho. cbv zeta.
+  destruct (run_refines sort HS ops empty_store m_empty store_ok_empty abs_empty Ho) as [A [B [C D]]].
+  repeat split; try assumption.
+  - rewrite (proj1 (reads_refine _ k A)). unfold m_for_each. rewrite B. reflexivity.
+  - rewrite (proj2 (reads_refine _ k A)). unfold m_find. rewrite B. reflexivity.
+Qed.
